@@ -3,6 +3,7 @@
 package verifkit
 
 import (
+	"os"
 	"fmt"
 	"regexp"
 	"runtime"
@@ -46,7 +47,9 @@ var blockedStates = []string{"sync.Mutex.Lock", "sync.RWMutex.Lock", "sync.RWMut
 
 // blockedAt returns "state @ function" when the goroutine whose stack contains marker is blocked
 // and its innermost non-runtime frame is product code (module code outside the harness).
-func blockedAt(marker string) string {
+var lastHangStack string
+
+func blockedAt(marker string) (string, string) {
 	buf := make([]byte, 8<<20)
 	n := runtime.Stack(buf, true)
 	for _, g := range strings.Split(string(buf[:n]), "\n\n") {
@@ -69,7 +72,7 @@ func blockedAt(marker string) string {
 			}
 		}
 		if !blocked {
-			return ""
+			return "", ""
 		}
 		for i := 1; i+1 < len(lines); i += 2 {
 			fn := strings.TrimSpace(lines[i])
@@ -81,16 +84,16 @@ func blockedAt(marker string) string {
 				fn = fn[:j]
 			}
 			if strings.Contains(path, "zz_verif_") || strings.Contains(path, "/verifkit/") || strings.Contains(path, "_test.go") {
-				return "" // blocked in harness code: not evidence against the code under test
+				return "", "" // blocked in harness code: not evidence against the code under test
 			}
 			if !strings.Contains(fn, "github.com/tokenized/") {
-				return ""
+				return "", ""
 			}
-			return state + " @ " + fn
+			return state + " @ " + fn, g
 		}
-		return ""
+		return "", ""
 	}
-	return ""
+	return "", ""
 }
 
 //go:noinline
@@ -126,13 +129,19 @@ func Guarded(f func()) (hung string) {
 	case <-time.After(2 * time.Second):
 	}
 	start := time.Now().Add(-2 * time.Second)
-	prev := ""
+	prev, prevStack := "", ""
+	prevCPU := procCPU(os.Getpid())
 	for {
-		cur := blockedAt("verifkit.guardedBody")
-		if cur != "" && cur == prev && time.Since(start) >= 3500*time.Millisecond {
+		cur, stack := blockedAt("verifkit.guardedBody")
+		cpu := procCPU(os.Getpid())
+		// blocked at the same place with the same stack, and the process did next to nothing in
+		// between (a goroutine that is merely caught in a blocking call while working hard has
+		// a changing stack and burns CPU)
+		if cur != "" && cur == prev && stack == prevStack && cpu >= 0 && cpu-prevCPU < 0.15 && time.Since(start) >= 3500*time.Millisecond {
+			lastHangStack = stack
 			return cur
 		}
-		prev = cur
+		prev, prevStack, prevCPU = cur, stack, cpu
 		select {
 		case <-done:
 			finish()
@@ -161,7 +170,7 @@ func RunCase(rep *Report, ci int, body func()) {
 		if i := strings.Index(hung, " @ "); i >= 0 {
 			fn = hung[i+3:]
 		}
-		rep.Finding(ci, rep.Property+"/hang/"+fn, fmt.Sprintf("the code under test never returned: the case's goroutine stays blocked (%s) in two goroutine dumps 1.5 s apart", hung), map[string]interface{}{"blocked": hung})
+		rep.Finding(ci, rep.Property+"/hang/"+fn, fmt.Sprintf("the code under test never returned: the case's goroutine stays blocked (%s) in two goroutine dumps 1.5 s apart", hung), map[string]interface{}{"blocked": hung, "goroutine": lastHangStack})
 		rep.Event("cases_hung", 1)
 	}
 }
